@@ -9,7 +9,9 @@ RULE = ("random accepted definitions (nesting depth <= 2, repeats on blocks and 
         "index tuple of every accessor path and the first invalid index per level is called (debug build, catch_unwind) and "
         "the address seen by the interface compared with (a) the Coq model of the emitted arithmetic evaluated on the real "
         "MIR and (b) the property's integer formula computed from the abstract definition; read_all_registers is run on every "
-        "block instance: visited registers, order, reported and bus addresses. distinct = distinct (path shape, index tuple)")
+        "block instance: visited registers, order, reported and bus addresses; every operation and read_all_registers is also run "
+        "through its *_async twin (self-waking mock futures, minimal executor) and must reach the device identically. "
+        "distinct = distinct (path shape, index tuple)")
 
 
 def method_maps(facts):
@@ -50,6 +52,17 @@ def leaf_op(mf):
         return (".dispatch(|_| ())" if mf["field_set_in"] else ".dispatch()") + ".map(|_| ())"
     if k == "buffer":
         return ".read(&mut [0u8; 2]).map(|_| ())" if mf["access"] == "RO" else ".write(&[1u8, 2u8]).map(|_| ())"
+    return None
+
+
+def leaf_op_async(mf):
+    k = mf["kind"]
+    if k == "register":
+        return ".read_async().await.map(|_| ())" if mf["access"] in ("RW", "RO") else ".write_async(|_| ()).await.map(|_| ())"
+    if k == "command":
+        return (".dispatch_async(|_| ())" if mf["field_set_in"] else ".dispatch_async()") + ".await.map(|_| ())"
+    if k == "buffer":
+        return ".read_async(&mut [0u8; 2]).await.map(|_| ())" if mf["access"] == "RO" else ".write_async(&[1u8, 2u8]).await.map(|_| ())"
     return None
 
 
@@ -231,6 +244,13 @@ def run(ctx):
                         f'let n = dev.interface.log.len(); '
                         f'match r {{ Ok(()) => println!("{cid} {key} {{}} {{}}", n, dev.interface.log.last().map(|s| s.as_str()).unwrap_or("-")), '
                         f'Err(e) => println!("{cid} {key} {{}} PANIC {{}}", n, e) }} }}')
+            opa = leaf_op_async(leaf)
+            if opa:
+                # the *_async twin of the same operation must reach the same address (same log line)
+                main.append(f'{{ let mut dev = {cid}::Dev::new({mock}); let r = catch(|| {{ block_on(async {{ let _ = {call}{opa}; }}) }}); '
+                            f'let n = dev.interface.log.len(); '
+                            f'match r {{ Ok(()) => println!("{cid} {key}@async {{}} {{}}", n, dev.interface.log.last().map(|s| s.as_str()).unwrap_or("-")), '
+                            f'Err(e) => println!("{cid} {key}@async {{}} PANIC {{}}", n, e) }} }}')
         for bkey in ra:
             steps = resolve(blocks, root, bkey.rstrip("/")) if bkey else []
             if steps is None:
@@ -240,6 +260,10 @@ def run(ctx):
                         f'let r = catch(|| {{ let _ = {call}.read_all_registers(|a, n, _v| items.push(format!("{{}}@{{}}", n, Into::<i128>::into(a)))); }}); '
                         f'let bus: Vec<String> = dev.interface.log.iter().map(|l| l.split(\' \').nth(1).unwrap_or("?").to_string()).collect(); '
                         f'println!("{cid} RA:{bkey} {{}} {{}} {{}}", if r.is_ok() {{ "ok" }} else {{ "PANIC" }}, items.join(","), bus.join(",")); }}')
+            main.append(f'{{ let mut dev = {cid}::Dev::new({mock}); let mut items: Vec<String> = Vec::new(); '
+                        f'let r = catch(|| {{ block_on(async {{ let _ = {call}.read_all_registers_async(|a, n, _v| items.push(format!("{{}}@{{}}", n, Into::<i128>::into(a)))).await; }}) }}); '
+                        f'let bus: Vec<String> = dev.interface.log.iter().map(|l| l.split(\' \').nth(1).unwrap_or("?").to_string()).collect(); '
+                        f'println!("{cid} RA:{bkey}@async {{}} {{}} {{}}", if r.is_ok() {{ "ok" }} else {{ "PANIC" }}, items.join(","), bus.join(",")); }}')
     main_rs = "use mock::*;\nfn main() {\n" + "\n".join(main) + "\n}\n"
     nq = 0
     shapes = set()
@@ -268,6 +292,11 @@ def run(ctx):
                     if g is None:
                         viol.append((c, f"no output for path {key}", None, want_v))
                         continue
+                    ga = got[cid].get(key + "@async")
+                    if ga is not None:
+                        hist["async_twins"] += 1
+                        if (ga.split(" ")[:3] if "PANIC" not in ga else ["PANIC" in ga]) != (g.split(" ")[:3] if "PANIC" not in g else ["PANIC" in g]):
+                            viol.append((c, f"{key}: the *_async operation does not reach the device like the blocking one (calls, kind, address)", ga, g))
                     n, rest = g.split(" ", 1)
                     if want_v == "ASSERT":
                         if not (rest.startswith("PANIC") and "index <" in rest and n == "0"):
@@ -307,6 +336,9 @@ def run(ctx):
                     if g is None:
                         viol.append((c, f"no read_all output for block {bkey}", None, want_items))
                         continue
+                    ga = got[cid].get("RA:" + bkey + "@async")
+                    if ga is not None and ga != g:
+                        viol.append((c, f"read_all_registers_async of block '{bkey}' differs from read_all_registers (status, items, bus addresses)", ga, g))
                     parts = g.split(" ")
                     status, items, bus = parts[0], (parts[1] if len(parts) > 1 else ""), (parts[2] if len(parts) > 2 else "")
                     if status != "ok":
